@@ -29,7 +29,7 @@ BUDGET = {"quick": 55, "thorough": 420}
 MAX_JOBS = 12
 RULE = ("synthetic traces: 1..4 chains inserted into the results dict in shuffled order (chain 0 present), 0..12 entries "
         "per chain, trees drawn with repetition from a pool of 1..6 distinct trees on 2..6 data points (outliers in a "
-        "third of the pools), every occurrence rebuilt with shuffled sibling / data order and optionally relabel_nodes() "
+        "third of the pools; 'wide' cases: 17..60 topologies with tied scores so that an unstable sort reorders rows), every occurrence rebuilt with shuffled sibling / data order and optionally relabel_nodes() "
         "so equal trees carry different node labels; scores are dyadic floats from a tie-heavy, a distinct or a mixed "
         "palette; --top-trees in {1, 2, #topologies, #topologies+3, 0, -2, default}; thorough adds traces sampled by "
         "the real run_phyclone_chain and larger synthetic ones; a few malformed traces (no chain 0, all chains empty). "
@@ -170,27 +170,28 @@ PALETTES = {
 }
 
 
-def gen_synth(rnd, big=False):
-    n = rnd.randint(2, 7 if big else 6)
+def gen_synth(rnd, big=False, wide=False):
+    """wide: more than 16 distinct topologies with many ties, so that an unstable sort really reorders tied rows"""
+    n = rnd.randint(6, 7) if wide else rnd.randint(2, 7 if big else 6)
     S = rnd.randint(1, 2)
     ds = gen_dataset(rnd, n, S=S, G=rnd.randint(2, 4), bits=2)
     with_out = rnd.random() < 0.34
     pool = {}
-    for _ in range(rnd.randint(1, 9 if big else 6)):
+    for _ in range(rnd.randint(25, 60) if wide else rnd.randint(1, 9 if big else 6)):
         f, o = random_canon_tree(rnd, n, outliers=with_out, max_out=n - 1)
         pool.setdefault(hkey(canon_key(f, o)), (f, o))
     pool = list(pool.values())
     nch = rnd.choice([1, 1, 2, 2, 3, 4])
     nums = list(range(nch))
     rnd.shuffle(nums)  # dict insertion order = completion order
-    pal = rnd.choice(["ties", "ties", "mixed", "mixed", "distinct"])
+    pal = rnd.choice(["ties", "ties", "mixed", "mixed", "distinct"]) if not wide else rnd.choice(["ties", "mixed"])
     used = set()
     chains = []
     for c in nums:
-        m = rnd.randint(0 if nch > 1 else 1, 30 if big else 12)
+        m = rnd.randint(25, 70) if wide else rnd.randint(0 if nch > 1 else 1, 30 if big else 12)
         ents = []
         for _ in range(m):
-            f, o = rnd.choice(pool[: rnd.randint(1, len(pool))]) if rnd.random() < 0.5 else rnd.choice(pool)
+            f, o = rnd.choice(pool[: rnd.randint(1, len(pool))]) if rnd.random() < 0.5 and not wide else rnd.choice(pool)
             if pal == "distinct":
                 while True:
                     sc = Fraction(rnd.randint(-4000, -1), 16)
@@ -206,7 +207,9 @@ def gen_synth(rnd, big=False):
         chains[0]["entries"].append({"forest": pool[0][0], "outs": pool[0][1], "score": "-1/1", "relabel": False})
     ntop = len({hkey(canon_key(e["forest"], e["outs"])) for c in chains for e in c["entries"]})
     tops = sorted({1, 2, ntop, ntop + 3, rnd.choice([0, -2]), rnd.randint(1, max(1, ntop))}) + [None]
-    if not big:
+    if wide:
+        tops = [rnd.randint(2, max(2, ntop - 1)), None]
+    elif not big:
         tops = rnd.sample(tops[:-1], 3) + [None]
     return {"kind": "synth", "data": ds.to_json(), "chains": chains, "tops": tops, "palette": pal}
 
@@ -232,13 +235,15 @@ def gen_malformed(rnd, which):
 
 def cases(tier, rnd):
     out = []
-    n = 500 if tier == "quick" else 3000
+    n = 450 if tier == "quick" else 6000
     for i in range(n):
         out.append(gen_synth(rnd, big=(tier == "thorough" and i % 3 == 0)))
+    for i in range(12 if tier == "quick" else 150):
+        out.append(gen_synth(rnd, wide=True))
     for i in range(6 if tier == "quick" else 24):
         out.append(gen_malformed(rnd, ["no-chain-0", "all-empty", "chain-0-empty"][i % 3]))
     if tier == "thorough":
-        for i in range(16):
+        for i in range(48):
             out.append({"kind": "sampled", "seed": rnd.randrange(1 << 30), "n": rnd.randint(3, 5), "chains": rnd.randint(1, 3),
                         "iters": rnd.randint(5, 25), "proposal": rnd.choice(["bootstrap", "semi-adapted", "fully-adapted"]),
                         "outlier": rnd.random() < 0.4})
@@ -358,9 +363,21 @@ def ask_or_reject(ctx, req):
 
 
 # ----------------------------------------------------------------------------------------------- the check
+def clear_caches():
+    """phyclone's memo tables are keyed by array *content*; different data sets of one worker process with equal bytes but
+    different (samples, grid) shapes would otherwise collide (a real run has one data set per process)."""
+    from phyclone.utils.dev import clear_proposal_dist_caches
+    from phyclone.tree.utils import compute_log_S, _convolve_two_children
+
+    clear_proposal_dist_caches()
+    compute_log_S.cache_clear()
+    _convolve_two_children.cache_clear()
+
+
 def check(ctx, case):
     kind = case["kind"]
     ctx.stat("kind_" + kind)
+    clear_caches()
     if kind == "sampled":
         results, meta = sample_results(case)
         tops = [1, 2, None]
@@ -385,7 +402,7 @@ def run_checks(ctx, case, results, meta, tops, tmp):
     valid = bool(flat) and any(c == 0 for c, _ in meta)
     ctx.stat(f"chains_{len(meta)}")
     ctx.stat(f"entries_{min(len(flat) // 5 * 5, 40)}+")
-    ctx.stat(f"topologies_{min(len(counts), 8)}")
+    ctx.stat(f"topologies_{min(len(counts), 8)}" if len(counts) <= 16 else "topologies_17+")
     ctx.stat("dict_order_shuffled" if [c for c, _ in meta] != sorted(c for c, _ in meta) else "dict_order_sorted")
     if len(set(s for *_, s in flat)) < len(flat):
         ctx.stat("has_score_ties")
@@ -427,8 +444,14 @@ def run_checks(ctx, case, results, meta, tops, tmp):
         if ans is None:
             ctx.corr_fail(case, "map: model rejects, code accepts", merr)
         else:
-            if hkey(model_key(ans["pick"]["key"])) != hkey(got):
+            cands = {hkey(model_key(e["key"])) for e in ans["candidates"]}
+            mine = hkey(model_key(ans["pick"]["key"]))
+            # ties at the maximum between different trees: the property allows either, so does the comparison
+            if hkey(got) not in cands or mine not in cands or (len(cands) == 1 and mine != hkey(got)):
                 ctx.corr_fail(case, "map: picked tree differs", {"code": got, "model": ans["pick"]})
+            ctx.stat("map_unique_argmax_tree" if len(cands) == 1 else "map_tied_argmax_trees")
+            if mine == hkey(got):
+                ctx.stat("map_pick_equals_first_max")
             if Fraction(ans["pick"]["score"]) != gmax:
                 ctx.corr_fail(case, "map: model's pick is not the maximum", ans["pick"])
 
@@ -537,8 +560,12 @@ def check_report(ctx, case, rows, members, archive, top, ans, flat, by_ptr, coun
     if ans is None:
         return
     mt = ans["table"]
-    mrows = sorted((hkey(model_key(w["key"])), w["count"], Fraction(w["score"]), w["chain"], w["iter"]) for w in mt)
-    crows = sorted((rkeys[i] if rkeys[i] is not None else ((), ()), r["count"], r["score"], r["chain"], r["iter"]) for i, r in enumerate(rows))
+    # the pointer is compared only for validity (oracle above): which of several entries attaining the maximum it names
+    # is a tie-break the property leaves open
+    mrows = sorted((hkey(model_key(w["key"])), w["count"], Fraction(w["score"])) for w in mt)
+    crows = sorted((rkeys[i] if rkeys[i] is not None else ((), ()), r["count"], r["score"]) for i, r in enumerate(rows))
+    if sorted((w["chain"], w["iter"]) for w in mt) == sorted((r["chain"], r["iter"]) for r in rows):
+        ctx.stat("pointers_equal_first_attaining_entry")
     if mrows != crows:
         ctx.corr_fail(case, "topology rows differ (as sets)", {"code": crows[:6], "model": mrows[:6]})
         return
